@@ -104,7 +104,10 @@ func VerifC02Loops() {
 	it := iter(vrt.Choice("iter", vrt.Param("niter", NIter)))
 	vrt.Note("iterator", Src(it))
 	p.steps("init", false, asg("acc", node.List{}))
-	switch vrt.Choice("consumer", 9) {
+	switch vrt.Choice("consumer", 10) {
+	case 9: // a loop nested in the body of a lock-step loop
+		p.Step(zipl("a", "b", pureIter(vrt.Choice("zip1", 5)), pureIter(vrt.Choice("zip2", 5)),
+			forl("c", it, call("write", node.List{Elems: []node.Type{nm("a"), nm("b"), nm("c")}}))), true, "loop-inside-lock-step-loop")
 	case 0:
 		p.Step(forl("e", it, call("write", nm("e"))), true, "write-each")
 	case 1:
@@ -142,7 +145,13 @@ func VerifC03Pure() {
 	p := NewPair()
 	k := lit()
 	var f node.Type
-	switch vrt.Choice("function", 6) {
+	fk := vrt.Choice("function", 8)
+	switch fk {
+	case 6: // nested loops
+		f = fn(blk(asg("s", ilit(0)), forl("u", call("fromto", ilit(0), ilit(2)), forl("w", call("fromto", ilit(0), ilit(2)), asg("s", bin("+", nm("s"), nm("a"))))), nm("s")), "a")
+	case 7: // a loop over a generator that loops over a generator
+		p.genDefs()
+		f = fn(blk(asg("s", ilit(0)), forl("e", call("filt", nm("pos"), lam(call("fromto", ilit(0), ilit(3)))), asg("s", bin("+", nm("s"), bin("*", nm("e"), nm("a"))))), nm("s")), "a")
 	case 0:
 		f = fn(bin("+", bin("*", nm("a"), ilit(2)), k), "a")
 	case 1:
@@ -178,7 +187,24 @@ func VerifC03Pure() {
 		p.steps("history", false, asg("q", fn(blk(forl("e", call("cnt", ilit(3)), ret(nm("e"))), ilit(0)))), call("q"))
 	}
 	// the same call in different dynamic contexts
-	switch vrt.Choice("placement", 6) {
+	switch vrt.Choice("placement", 8) {
+	case 6: // after a sibling call at the same (deep) call depth: the frame reuses that call's cells
+		d := vrt.Choice("call-depth", vrt.Param("sweepdepth", 130))
+		vrt.Assume(fk == 5)
+		p.steps("def", false, asg("plus", fn(bin("+", nm("u"), nm("w")), "u", "w")),
+			asg("at", fn(node.IfElse{Condition: bin(">", nm("d"), ilit(0)), TrueCase: call("at", bin("-", nm("d"), ilit(1))),
+				FalseCase: blk(call("plus", ilit(100), ilit(11)), call("f", nm("arg")))}, "d")))
+		p.Step(call("at", ilit(d)), true, "after-sibling-call-at-depth")
+	case 7: // in one array after other looping functions (contexts are recycled within the statement)
+		p.genDefs()
+		p.steps("def", false,
+			asg("grid", fn(blk(asg("s", ilit(0)), forl("u", call("fromto", ilit(0), ilit(2)), forl("w", call("fromto", ilit(0), ilit(2)), asg("s", bin("+", nm("s"), ilit(1))))), nm("s")))),
+			asg("sumev", fn(blk(asg("s", ilit(0)), forl("e", call("filt", nm("pos"), lam(call("fromto", ilit(0), ilit(4)))), asg("s", bin("+", nm("s"), nm("e")))), nm("s")))))
+		first := "grid"
+		if vrt.Bool("sumev-first") {
+			first = "sumev"
+		}
+		p.Step(node.List{Elems: []node.Type{call(first), call("f", nm("arg")), call("grid"), call("f", nm("arg")), call("sumev")}}, true, "in-array-after-looping-calls")
 	case 0:
 		p.Step(call("f", nm("arg")), true, "call-again")
 	case 1:
